@@ -293,7 +293,7 @@ func urlNormalForms(iv string) []string {
 	}
 	for _, c := range cands {
 		if u, err := url.Parse(c); err == nil {
-			out = append(out, u.String())
+			out = append(out, u.String(), strings.TrimSpace(u.String()))
 		}
 	}
 	return out
